@@ -449,7 +449,8 @@ func nestingSweep(c *explore.Ctx, menu []c09Op, solo []string, fresh func() segm
 	// the pools are deterministic (LIFO) here, so that an object handed out twice is handed out twice
 	// on every run; variant 1 makes an out-of-range visit first (it also takes a context from the pool)
 	verifrt.DetPools = true
-	defer func() { verifrt.DetPools = false; verifrt.ResetPools() }()
+	verifrt.SingleThread = true // a lock held across a visitor callback is a self-deadlock: reported at once
+	defer func() { verifrt.DetPools = false; verifrt.SingleThread = false; verifrt.ResetPools() }()
 	var idx int64
 	for _, o := range outers {
 		verifrt.ResetPools()
